@@ -7,7 +7,7 @@ import (
 	"verifharness/vh"
 )
 
-// ---- classification helpers (the exact excluded conditions of the `_partial` theorems)
+// ---- classification helpers (the hypotheses of the C04_cells_* theorems)
 
 func width(t *typeDesc) int {
 	if t.kind == 't' {
@@ -26,7 +26,7 @@ func viewID(t *typeDesc) int {
 	case 'n':
 		return t.id
 	case 'c':
-		return classType(t.cls)
+		return customType(t.cls)
 	case 'l':
 		return 0x20
 	case 'm':
@@ -39,8 +39,8 @@ func viewID(t *typeDesc) int {
 	return 0x31
 }
 
-// goType: 0 = helpers.go goType succeeds for the driver's view of the type, 1 = it returns an error,
-// 2 = it panics (reflect.MapOf with a key type that is not comparable in Go: KF-C04-4)
+// goType: 0 = the type has a Go type (helpers.go goType succeeds for the driver's view of it), 1 = it
+// has none (unknown / custom type, or a map whose key type is not comparable in Go): an error
 func goType(t *typeDesc) int {
 	switch t.kind {
 	case 'n', 'c':
@@ -59,10 +59,10 @@ func goType(t *typeDesc) int {
 		}
 		switch t.sub[0].kind {
 		case 'l', 's', 'm', 'u', 't':
-			return 2
+			return 1
 		}
 		if viewID(t.sub[0]) == 3 { // blob: []byte
-			return 2
+			return 1
 		}
 		return 0
 	}
@@ -106,8 +106,9 @@ func distinct(l []string) bool {
 // (→ spec-backed op `rows`) or falls under an excluded condition (→ `rowsx`, with the class name).
 func rowsClass(api, dests string, r *lresp) (op, class string) {
 	m := r.body.m
+	sfx := ""
 	if !m.noCollClass() {
-		return "rowsx", "KF-C04-1/custom-collection-class"
+		sfx = "/custom-collection-class"
 	}
 	if m.mode == 'O' {
 		return "rowsx", "rows/" + api + "/no-metadata"
@@ -132,22 +133,20 @@ func rowsClass(api, dests string, r *lresp) (op, class string) {
 	case "scanner":
 		for i, c := range m.cols {
 			if c.t.kind == 't' && len(c.t.sub) != 1 && i != len(m.cols)-1 {
-				return "rowsx", "KF-C04-2/scanner-tuple-not-last"
+				return "rows", "rows/scanner/tuple-not-last" + sfx
 			}
 		}
 	case "mapscan", "slicemap":
 		names, worst := expandedNames(m)
-		if worst == 2 {
-			return "rowsx", "KF-C04-4/map-key-not-comparable"
-		}
-		if worst == 1 {
-			return "rowsx", "rows/" + api + "/no-go-type"
+		if worst != 0 {
+			// C04_no_go_type_is_error: an error outcome, never a panic
+			return "rows", "rows/" + api + "/no-go-type" + sfx
 		}
 		if !distinct(names) {
 			return "rowsx", "rows/" + api + "/duplicate-names"
 		}
 	}
-	return "rows", "rows/" + api
+	return "rows", "rows/" + api + sfx
 }
 
 // unsafeAlloc: would the real parser reach `make([]int, pkeyCount)` with a count that allocates
@@ -340,13 +339,20 @@ func (x *runner) rowsOps(v int, mult int) {
 				for i := 0; i < n; i++ {
 					m.cols = append(m.cols, colSpec{name: g.name(), t: g.rawType(true)})
 				}
+				if g.r.Intn(6) == 0 {
+					// a column without a Go type (a map with a key that is not comparable in Go, an unknown or
+					// custom type): SliceMap is an error whatever the other columns are
+					c := colSpec{name: g.name(), t: g.noGoType()}
+					k := g.r.Intn(len(m.cols) + 1)
+					m.cols = append(m.cols[:k], append([]colSpec{c}, m.cols[k:]...)...)
+				}
 				if g.r.Bool() {
 					p := g.blob(8)
 					m.paging = &p
 				}
 				b.m = m
 			} else {
-				b.m = g.meta(g.r.Intn(10) != 0, g.r.Intn(30) == 0, 5)
+				b.m = g.meta(g.r.Intn(10) != 0, g.r.Intn(6) == 0, 5)
 				if api == "mapscan" && g.r.Intn(3) != 0 {
 					// mostly types that have a Go type
 					for i := range b.m.cols {
@@ -427,12 +433,11 @@ func run(tier, path string) {
 					class += "/" + b.ek
 				}
 				if !b.noCollClass() {
-					x.emit(x.respOp("respx", v, rs), "KF-C04-1/custom-collection-class")
-				} else {
-					x.emit(x.respOp("resp", v, rs), class)
-					if i%4 == 0 {
-						x.emit(x.respOp("comp", v, rs), fmt.Sprintf("comp/v%d/%s", v, k))
-					}
+					class += "/custom-collection-class"
+				}
+				x.emit(x.respOp("resp", v, rs), class)
+				if i%4 == 0 {
+					x.emit(x.respOp("comp", v, rs), fmt.Sprintf("comp/v%d/%s", v, k))
 				}
 				if i%6 == 0 {
 					// framer version differs from the version in the header: model-vs-code
